@@ -347,6 +347,9 @@ JoinedVal(d, gs, k) ==
   ELSE IF d.named[k].arity = "some" /\ all = {} THEN [ok |-> FALSE, why |-> [k |-> "missing", id |-> d.named[k].id]]
   ELSE [ok |-> TRUE, v |-> [n \in DOMAIN sorted |-> [v |-> Cardinality({x \in J : x < sorted[n][1]}), x |-> BV(sorted[n]).v]]]
 
+\* `toggle_flag`: a repeated choice between two required flags of which the last one given decides
+Toggle(f, r) == IF "battery" \in DOMAIN f /\ f.battery.k = "toggle" /\ r.ok
+                THEN [r EXCEPT !.v = IF @ = <<>> THEN "NONE" ELSE [some |-> @[Len(@)]]] ELSE r
 GFinish(d, gs0, envv) ==
   LET gs == Close(d, gs0) IN
   IF gs.dead # "" THEN [class |-> "stderr", why |-> [k |-> gs.dead]]
@@ -356,7 +359,7 @@ GFinish(d, gs0, envv) ==
         fv == [k \in DOMAIN d.named |->
                  LET f == d.named[k] IN
                  IF IsLeaf(f) THEN NamedVal(plain, f, envv)
-                 ELSE IF f.kind = "alt" THEN AltVal(f, gs.acc, envv, gs.pos)
+                 ELSE IF f.kind = "alt" THEN Toggle(f, AltVal(f, gs.acc, envv, gs.pos))
                  ELSE IF IsJoined(f) THEN JoinedVal(d, gs, k)
                  ELSE AdjVal(f, gs.blocks[k])]
         bad == {k \in DOMAIN fv : ~fv[k].ok}
